@@ -589,9 +589,9 @@ def tasks(tier, seed):
         glen = 7
     else:
         kmax, shards = 8, 32
-        rnd_shards, rnd_n = 8, 20000
-        rt_shards, rt_n = 16, 12000
-        mal_shards, mal_n = 8, 8000
+        rnd_shards, rnd_n = 8, 6000
+        rt_shards, rt_n = 16, 5000
+        mal_shards, mal_n = 8, 5000
         glen = 8
     # slow pyparsing tasks first so that they overlap the cheap ones
     a = GRAMMAR_ALPHABET
